@@ -170,7 +170,8 @@ JRecognised == IsJ =>
   /\ Jc.h = Last.x
   /\ Last.hint = Last.x
   /\ Last.err = "" => Last.txid = 1
-  /\ Last.err = (IF Last.y = 0 /\ Last.noamt = 1 THEN "missing" ELSE "")
+  \* (a state stored in the deprecated pre-0.15 format - the full commitment - always carries its amounts)
+  /\ Last.err = (IF Last.y = 0 /\ Last.noamt = 1 /\ Last.legacy = 0 THEN "missing" ELSE "")
   \* y = 2: the chain watcher's own code path (handleCommitSpend) on a copy of the channel that was
   \* read from the database before any of these heights was revoked and that nobody updates: what
   \* is on disk must suffice - it hands a retribution for exactly this state to the breach arbitrator
@@ -199,11 +200,13 @@ JInputs == JGood =>
 JLogMatchesTx == JGood =>
   /\ Cardinality({r.idx : r \in Range(Last.ins)}) = Len(Last.ins)
   /\ \A r \in Range(Last.ins) : r.amt = r.txamt /\ r.pk = 1
-  /\ Last.ouridx = (IF JToRemote > 0 THEN JKind(0)[1].idx ELSE -1)
-  /\ Last.theiridx = (IF JToLocal > 0 THEN JKind(1)[1].idx ELSE -1)
-  /\ Last.nhtlclog = NHtlcOut(Jc, Jp, FALSE)
-  /\ Last.noamt = 0 => /\ Last.ouramtlog = Sat(Net(Jc, Jp, FALSE, TRUE))
-                       /\ Last.theiramtlog = Sat(Net(Jc, Jp, FALSE, FALSE))
+  \* (the compact log's own index/amount fields do not exist in the deprecated format)
+  /\ Last.legacy = 0 =>
+       /\ Last.ouridx = (IF JToRemote > 0 THEN JKind(0)[1].idx ELSE -1)
+       /\ Last.theiridx = (IF JToLocal > 0 THEN JKind(1)[1].idx ELSE -1)
+       /\ Last.nhtlclog = NHtlcOut(Jc, Jp, FALSE)
+       /\ Last.noamt = 0 => /\ Last.ouramtlog = Sat(Net(Jc, Jp, FALSE, TRUE))
+                            /\ Last.theiramtlog = Sat(Net(Jc, Jp, FALSE, FALSE))
 
 \* every input of every variant of the justice transaction passes the script interpreter against
 \* the outputs of the transaction the cheater actually held; same for second-level outputs
